@@ -15,8 +15,16 @@ RULE = (
 )
 ASSUMPTIONS = ["'assign' means setattr / attribute assignment; del, __dict__ pokes and object.__setattr__ are outside the statement"]
 
-VALUES = [0, 1, -1, 3.5, "x", b"\x00", None, True, [], {"a": 1}]
-FRESH = ["foo", "DF999", "x", "_y", "__z", "NSat2", "payload2", "DF002_01", "_immutable", "payload", "identity", "ismsm", "_payload", "_payloadi", "_payblen", "_labelmsm", "_unknown", "_satmap", "_cellmap", "__dict__", "__class__"]
+# the last ones: values that are costly or impossible to render (CPython refuses str() of ints beyond 4300 digits)
+VALUES = [0, 1, -1, 3.5, "x", b"\x00", None, True, [], {"a": 1}, 1 << 16384, [-(1 << 20000)], "y" * 100000, float("nan")]
+FRESH = ["foo", "DF999", "x", "_y", "__z", "NSat2", "payload2", "DF002_01", "_immutable", "payload", "identity", "ismsm", "_payload", "_payloadi", "_payblen", "_labelmsm", "_unknown", "_satmap", "_cellmap", "__dict__", "__class__", "100%", "%d", "%(b)s", "a%", "{}", "{0}", "{name}", "a b", "", "\u00e9", "\\", "DF002\n", "1DF"]
+
+
+def _r(v):
+    try:
+        return repr(v)[:60]
+    except ValueError:
+        return f"<{type(v).__name__} that cannot be rendered>"
 
 
 def snapshot(m):
@@ -105,9 +113,9 @@ def o_setattr(case):
         except RTCMMessageError:
             pass
         except Exception as e:  # pylint: disable=broad-except
-            raise Fail("wrong-exception", f"setattr({name!r}, {val!r}) on {before[1]} raised {type(e).__name__}: {e}") from e
+            raise Fail("wrong-exception", f"setattr({name!r}, {_r(val)}) on {before[1]} raised {type(e).__name__}: {e}") from e
         else:
-            raise Fail("assignment-accepted", f"setattr({name!r}, {val!r}) on a {before[1]} message did not raise")
+            raise Fail("assignment-accepted", f"setattr({name!r}, {_r(val)}) on a {before[1]} message did not raise")
         if case.get("direct") and name.isidentifier() and (not name.startswith("_") or name == "_payload") and hasattr(m, name):
             # augmented assignment is an assignment attempt too: m.name += v must raise and change nothing
             cur = getattr(m, name)
@@ -130,9 +138,9 @@ def o_setattr(case):
             except RTCMMessageError:
                 pass
             except Exception as e:  # pylint: disable=broad-except
-                raise Fail("wrong-exception", f"m.{name} = {val!r} raised {type(e).__name__}") from e
+                raise Fail("wrong-exception", f"m.{name} = {_r(val)} raised {type(e).__name__}") from e
             else:
-                raise Fail("assignment-accepted", f"m.{name} = {val!r} on a {before[1]} message did not raise")
+                raise Fail("assignment-accepted", f"m.{name} = {_r(val)} on a {before[1]} message did not raise")
     after = snapshot(m)
     if after != before:
         which = [n for n, (a, b) in enumerate(zip(before, after)) if a != b]
